@@ -265,9 +265,9 @@ type isNullExpr struct {
 	not bool
 }
 type isBoolExpr struct {
-	x    expr
-	val  bool
-	not  bool
+	x   expr
+	val bool
+	not bool
 }
 type funcCall struct {
 	name     string
